@@ -20,6 +20,8 @@ LEVEL = {
          'storage level; query-issued handles are covered by the model of the macros\' run-time meaning and the correspondence'),
  'C10': ('Theorems that every outcome of create and destroy is an invariant state or the unchanged state (capacity overflow, both generation overflows, debug assertions), resting on the effect order translated from force_destroy this run; fault-injection stream (closure, Clone, Drop panics, overflow via presets) with registry accounting',
          'panics inside user closures/Clone/Drop are modelled as oracle decisions; abort-on-double-panic is not modelled'),
+ 'C11': ('Theorems that the model\'s guard-list rule is exactly RefCell\'s flag discipline (panic iff refused, independence of other cells, shared/shared, release restores, closure guards end with the call, clone rule); the table of which cells each runtime-borrowed API acquires and for how long is compared with the implementation on the whole finite (outer, inner) access matrix (exhaustive) and on random nestings to depth 3 with panics',
+         'std::cell::RefCell itself is trusted; the acquisition table is hand-written and tied by the exhaustive differential run'),
  'C12': ('Theorems: with_capacity exact and panics iff > 2^24; create outcome classification with the translated growth formula; create_within_capacity iff len < capacity with capacity unchanged; invariant accounts len <= cap <= 2^24 and free-list length cap - len',
          'the real 2^24 fill is thorough-tier only'),
  'C13': ('Theorem that the clone of an invariant storage is the identical state (with the translated loop bounds); clone audit: identical len/dump/rows/events of original and clone right after cloning, then diverging histories',
